@@ -3,7 +3,7 @@
    decoding of the element list ("what loading from this offset would give"). The spec side uses neither
    the model nor gen/. *)
 From Coq Require Import NArith List Bool.
-Require Import SDS.Model.Mach SDS.Spec.BitSeq SDS.Check.Common.
+Require Import SDS.Model.Mach SDS.Spec.BitSeq SDS.Spec.Utf8 SDS.Check.Common.
 Require Export SDS.Model.Mapped.   (* the case files name the view types *)
 Import ListNotations.
 Open Scope N_scope.
@@ -117,35 +117,6 @@ Definition sp_take (l : list N) (pos n : N) : option (list N) :=
 
 Definition sp_bytes_of (w : N) : list N := map (fun k => (w / 2 ^ (8 * N.of_nat k)) mod 256) (seq 0 8).
 Fixpoint sp_pairs (l : list N) : list (N * N) := match l with a :: b :: t => (a, b) :: sp_pairs t | _ => [] end.
-
-(* UTF-8 by decoding: lead byte gives the length, continuation bytes carry 6 bits each, the scalar value must
-   need that length, must not be a surrogate and must not exceed 0x10FFFF *)
-Definition sp_cont (b : N) : bool := (128 <=? b) && (b <? 192).
-Definition sp_scalar_ok (cp lo : N) : bool :=
-  (lo <=? cp) && (cp <=? 1114111) && negb ((55296 <=? cp) && (cp <=? 57343)).
-Fixpoint sp_utf8 (l : list N) : bool :=
-  match l with
-  | [] => true
-  | b0 :: t0 =>
-      if b0 <? 128 then sp_utf8 t0
-      else if b0 <? 192 then false
-      else if b0 <? 224 then
-        match t0 with
-        | b1 :: t1 => sp_cont b1 && sp_scalar_ok ((b0 - 192) * 64 + (b1 - 128)) 128 && sp_utf8 t1
-        | _ => false end
-      else if b0 <? 240 then
-        match t0 with
-        | b1 :: b2 :: t2 =>
-            sp_cont b1 && sp_cont b2 && sp_scalar_ok ((b0 - 224) * 4096 + (b1 - 128) * 64 + (b2 - 128)) 2048 && sp_utf8 t2
-        | _ => false end
-      else if b0 <? 248 then
-        match t0 with
-        | b1 :: b2 :: b3 :: t3 =>
-            sp_cont b1 && sp_cont b2 && sp_cont b3
-            && sp_scalar_ok ((b0 - 240) * 262144 + (b1 - 128) * 4096 + (b2 - 128) * 64 + (b3 - 128)) 65536 && sp_utf8 t3
-        | _ => false end
-      else false
-  end.
 
 Inductive scontent :=
 | SVec (xs : list N) | SPairs (ps : list (N * N)) | SBytes (bs : list N) | SStr (bs : list N)
